@@ -32,9 +32,9 @@ LimitCalls ==
 
 AllCalls == FixedCalls \cup ListCalls \cup StrCalls \cup LimitCalls
 
-(* thorough tier: widths 0..4, every text of length <= 5 over 4 symbols, 6 pads, both sides (98,280 more calls) *)
+(* thorough tier: widths 4..5 as well, every text of length <= 4 over 5 symbols, 6 pads, both sides *)
 BigFixedCalls ==
   { [fn |-> "WriteFixedStringWithPadding", a |-> [s |-> s, n |-> n, pad |-> pad, left |-> left]] :
-      n \in 0..4, pad \in Pads, left \in BOOLEAN, s \in Texts({0, 65, 195, 255}, 5) }
+      n \in 4..5, pad \in Pads, left \in BOOLEAN, s \in Texts({0, 32, 65, 195, 255}, 4) }
 AllCallsThorough == AllCalls \cup BigFixedCalls
 =============================================================================
